@@ -20,7 +20,7 @@
    empty reply) is answered with that reply anyway; the code never answers NFS3ERR_TOOSMALL (C26_never_toosmall).
    The existing suite demands NFS3_OK for count = 50. *)
 From Coq Require Import String List NArith ZArith Bool.
-From Verif Require Import Gen.Facts Model.Handles Model.Backend Model.Srv
+From Verif Require Import Gen.Facts Model.Handles Model.Backend Model.Srv Model.DirEnc
   Proofs.BackendWF Proofs.SrvPaths Proofs.SrvAttrs Proofs.SrvCoh Proofs.Paging.
 Import ListNotations.
 Open Scope N_scope.
